@@ -28,11 +28,20 @@ func (o *Obligation) query(forCvc5 bool, withModel bool) string {
 	c := o.Ctx
 	relaxed := o.Relaxed
 	var sb strings.Builder
+	pre := c.prelude()
+	if relaxed {
+		// ix is definitional: keep it exact when quantified axioms are dropped
+		if c.Mode == ModeInt {
+			pre = strings.Replace(pre, "(declare-fun ix (Int Int) Int)\n(assert (forall ((a Int) (b Int)) (! (= (ix a b) (+ a b)) :pattern ((ix a b)))))\n", "(define-fun ix ((a Int) (b Int)) Int (+ a b))\n", 1)
+		} else {
+			pre = strings.Replace(pre, "(declare-fun ix ((_ BitVec 64) (_ BitVec 64)) (_ BitVec 64))\n(assert (forall ((a (_ BitVec 64)) (b (_ BitVec 64))) (! (= (ix a b) (bvadd a b)) :pattern ((ix a b)))))\n", "(define-fun ix ((a (_ BitVec 64)) (b (_ BitVec 64))) (_ BitVec 64) (bvadd a b))\n", 1)
+		}
+	}
 	if forCvc5 {
 		sb.WriteString("(set-option :produce-models true)\n(set-logic ALL)\n")
-		sb.WriteString(strings.Replace(c.prelude(), "(set-option :produce-models true)\n", "", 1))
+		sb.WriteString(strings.Replace(pre, "(set-option :produce-models true)\n", "", 1))
 	} else {
-		sb.WriteString(c.prelude())
+		sb.WriteString(pre)
 	}
 	if c.Mode == ModeInt && !o.ExpectSat && !relaxed {
 		sb.WriteString(stringAxioms)
@@ -173,10 +182,31 @@ func discharge(o *Obligation, dir string, timeout int, confirm bool) *Result {
 		r, out, name string
 		el          float64
 	}
-	ch := make(chan sres, 3)
+	ch := make(chan sres, 4)
 	cfile := base + ".cvc5.smt2"
 	os.WriteFile(cfile, []byte(o.query(true, false)), 0644)
 	var wg sync.WaitGroup
+	rfile := base + ".relaxed.smt2"
+	relaxedRes := ""
+	relaxedOut := ""
+	hasQuant := false
+	if !o.ExpectSat {
+		for _, a := range append(append([]string{}, o.Ctx.Decls...), o.Ctx.Log[:o.Prefix]...) {
+			if strings.HasPrefix(a, "(assert") && (strings.Contains(a, "(forall ") || strings.Contains(a, "(exists ")) {
+				hasQuant = true
+				break
+			}
+		}
+		o.Relaxed = true
+		os.WriteFile(rfile, []byte(o.query(false, false)), 0644)
+		o.Relaxed = false
+		wg.Add(1)
+		go func() {
+			defer wg.Done()
+			r, out, el := runSolver(solvers[0], rfile, timeout)
+			ch <- sres{r, out, "z3-new(relaxed)", el}
+		}()
+	}
 	for i, sp := range solvers {
 		wg.Add(1)
 		go func(i int, sp solverSpec) {
@@ -196,6 +226,14 @@ func discharge(o *Obligation, dir string, timeout int, confirm bool) *Result {
 			continue
 		}
 		res.TimeS += s.el
+		if s.name == "z3-new(relaxed)" {
+			relaxedRes, relaxedOut = s.r, s.out
+			if s.r == "unsat" {
+				// fewer assumptions, still unsat: proved
+				final = finish("proved", s.name, 0, "")
+			}
+			continue
+		}
 		if d := decided(s.r, s.out, s.name); d != nil {
 			final = d
 			// cannot cancel others easily; they finish by their own timeout
@@ -210,22 +248,18 @@ func discharge(o *Obligation, dir string, timeout int, confirm bool) *Result {
 	if final != nil {
 		return final
 	}
-	if !o.ExpectSat && !strings.Contains(o.Goal, "(forall ") {
-		// Counterexample search: quantified assumptions make solvers answer
-		// "unknown" instead of "sat". Drop them; a model of the weaker problem
-		// is only a candidate and counts solely if it replays on the real code.
-		o.Relaxed = true
-		rfile := base + ".relaxed.smt2"
-		os.WriteFile(rfile, []byte(o.query(false, false)), 0644)
-		r, out, el := runSolver(solvers[0], rfile, timeout)
-		res.TimeS += el
-		if r == "sat" {
-			res.Model = out
-			res.Query = rfile
-			return finish("refuted-candidate", "z3-new", 0, reason+"; relaxed (quantifier-free) problem: sat")
+	if relaxedRes == "sat" {
+		// Counterexample of the problem without quantified assumptions. With no
+		// quantified assumption in the context it is a model of the full
+		// problem; otherwise it is a candidate that counts only if it replays.
+		res.Model = relaxedOut
+		res.Query = rfile
+		if !hasQuant && !strings.Contains(o.Goal, "(forall ") && !strings.Contains(o.Goal, "(exists ") {
+			return finish("refuted", "z3-new", 0, reason+"; quantifier-free problem: sat")
 		}
-		o.Relaxed = false
+		return finish("refuted-candidate", "z3-new", 0, reason+"; relaxed (quantifier-free) problem: sat")
 	}
+	os.Remove(rfile)
 	return finish("undecided", "", 0, reason)
 }
 
